@@ -130,10 +130,12 @@ Fixpoint run_rops (s : stream) (fs : list frame) (ops : list rop) (obs : list rr
 (* frames handed to the receiver after an on-path edit *)
 Inductive eframe :=
 | EGen (j : nat) (flag : N)       (* body of the j-th frame ever sent in this direction, under header flag *)
+| EOther (j : nat) (flag : N)     (* body of the j-th frame ever sent in the OTHER direction (reflection) *)
 | ERaw (flag : N) (bs : bytes).    (* any other bytes *)
-Definition realize (hist : list frame) (e : eframe) : frame :=
+Definition realize (hist other : list frame) (e : eframe) : frame :=
   match e with
   | EGen j flag => {| f_flag := flag; f_body := match nth_error hist j with Some f => f_body f | None => Raw [] end |}
+  | EOther j flag => {| f_flag := flag; f_body := match nth_error other j with Some f => f_body f | None => Raw [] end |}
   | ERaw flag bs => {| f_flag := flag; f_body := Raw bs |}
   end.
 
@@ -228,7 +230,8 @@ Definition run_step (w : world) (st : step) : world * bool :=
       let ok_send := eqb_list_N errs serr &&
                      match wire with Some ws => all2 (frame_matches (wkey w)) fs ws | None => true end in
       let pend := if a_sends then pab w else pba w in
-      let rfs := match edit with None => pend ++ fs | Some es => map (realize hist1) es end in
+      let other := if a_sends then hba w else hab w in
+      let rfs := match edit with None => pend ++ fs | Some es => map (realize hist1 other) es end in
       let '(r1, lft, ok_recv) := run_rops rcv_s rfs rops rres in
       (if a_sends
        then {| wa := s1; wb := r1; hab := hist1; hba := hba w; wkey := wkey w; pab := lft; pba := pba w |}
